@@ -59,6 +59,7 @@ structure Rec where
   e : E
   round : Int
   wit : Bool
+  lamport : Int := 0              -- `_lamportTimestamp`: max over the parents + 1
   ancs : List Nat                 -- ids of the ancestors-or-self
   nssw : Nat := 0                 -- number of witnesses of the previous round it strongly sees
   la : List LaEnt                 -- lastAncestors, own entry included
@@ -71,6 +72,7 @@ def hasId (l : List Rec) (i : Nat) : Bool := l.any (fun r => r.e.id == i)
 def unionRecs (a b : List Rec) : List Rec := a ++ b.filter (fun r => !hasId a r.e.id)
 
 def rOf : List Rec → Int | [] => -1 | r :: _ => r.round
+def lOf : List Rec → Int | [] => -1 | r :: _ => r.lamport
 def laOf : List Rec → List LaEnt | [] => [] | r :: _ => r.la
 
 def laGet (la : List LaEnt) (p : Nat) : Option LaEnt := la.find? (fun x => x.creator == p)
@@ -149,6 +151,12 @@ def roundFrom (ents : List (Nat × List LaEnt)) (t : List Rec) (pr : Int) : Int 
   if pr == -1 then 0 else
   if Gen.cmpRound.evalN (strongSeen ps ents t pr).length (sm ps) then pr + 1 else pr
 
+/-- `_lamportTimestamp` -/
+def lamportFrom (isp iop : List Rec) : Int :=
+  match iop with
+  | [] => lOf isp + 1
+  | o :: _ => (if Gen.cmpLamport.eval o.lamport (lOf isp) then o.lamport else lOf isp) + 1
+
 /-- the record of `e` from the ancestor lists of its parents -/
 def headRec (e : E) (isp iop : List Rec) : Rec :=
   let t := unionRecs isp iop
@@ -160,7 +168,7 @@ def headRec (e : E) (isp iop : List Rec) : Rec :=
   let ssw := strongSeen ps ents t (r - 1)
   let cands := t.filter (fun x => x.wit && decide (x.round < r))
   let vd := if wit then cands.map (fun x => (x.e.id, voteOn ps r e.mid ancs ssw x)) else []
-  { e := e, round := r, wit := wit, ancs := ancs, nssw := ssw.length, la := laSet laP ⟨e.creator, e, r⟩,
+  { e := e, round := r, wit := wit, lamport := lamportFrom isp iop, ancs := ancs, nssw := ssw.length, la := laSet laP ⟨e.creator, e, r⟩,
     votes := vd.map (fun p => (p.1, p.2.1)),
     decs := vd.filterMap (fun p => p.2.2.map (fun b => (p.1, b))) }
 
@@ -212,6 +220,25 @@ def build (nodes : List Node) : List (Nat × List Rec) := nodes.foldl (buildStep
 
 /-- fame of candidate `x` in a view: the decision of the first witness that decides it -/
 def fameIn (view : List Rec) (x : Rec) : Option Bool := view.findSome? (fun y => decideRec ps y x)
+
+/-- the famous witnesses of round `i` in a view -/
+def famousOf (view : List Rec) (i : Int) : List Rec :=
+  view.filter (fun x => x.wit && x.round == i && fameIn ps view x == some true)
+
+/-- `DecideRoundReceived` for event `e`: the first round `i` above its own, all rounds up to `i`
+    being decided, whose famous witnesses all see `e` and number a supermajority.  `decided` says
+    which rounds the node has declared decided (the latch of `RoundInfo`); `last` is the node's
+    last round -/
+def rrFrom (decided : Int → Bool) (view : List Rec) (e : Rec) (fuel : Nat) (i last : Int) : Option Int :=
+  match fuel with
+  | 0 => none
+  | fuel + 1 =>
+    if i > last then none else
+    if !decided i then none else
+    let fws := famousOf ps view i
+    let seen := fws.filter (fun w => w.ancs.contains e.e.id)
+    if Gen.cmpRoundReceivedAll.evalN seen.length fws.length && Gen.cmpRoundReceived.evalN seen.length (sm ps) then some i
+    else rrFrom decided view e fuel (i + 1) last
 
 end
 end Babble.Dag
